@@ -4,7 +4,7 @@ import json
 
 def run(ctx):
     # 1. exhaustive model check: every history of <= MaxOps calls over 2 buckets x 2 keys x 2 values
-    maxops = ctx.pick(6, 8)
+    maxops = ctx.pick(5, 7)
     r = ctx.model_check("state", "MC_LayerDB", "MC_LayerDB.cfg", constants={"MaxOps": maxops},
                         coverage=True, timeout=ctx.pick(300, 1500))
     ctx.check_coverage(r, ["Set", "Delete", "Get", "BaseSet", "Commit", "Discard"])
